@@ -412,3 +412,30 @@ def run(index, rep, tier):
         rep.check(ok, "R02.12", at.qualname, "an exit that skips the token store", fn_where(at, getattr(w, "ast", None) if w is not None and getattr(w, "ast", None) is not None else None),
                   "add_translate_token: every normal exit passes the store",
                   "NexusTaxonSymbolMapper.add_translate_token can return without recording the entry: the symbol look-up then falls through to the label and number look-ups, so a TRANSLATE token that equals another taxon's label resolves to that other taxon and the leaves of translated trees are permuted")
+
+    # ---- R02.13 the writers can write the root
+    with rep.section("R02.13"):
+        rep.rule("R02.13", "the tree writers can write the root: in the Newick / NEXUS / NeXML writers a node's parent is dereferenced only behind a test of that parent - the seed node has none, and a tree that is a single node reaches the leaf writer with it")
+        rep.floor("R02.13", "dereferences of a parent in the writers", 1, parent_deref_rule(index, rep, "R02.13", ["dendropy.dataio.newickwriter", "dendropy.dataio.nexuswriter", "dendropy.dataio.nexmlwriter"]))
+
+    # ---- R02.14 the NEXUS tree statement hands over right after the `=`
+    with rep.section("R02.14"):
+        rep.rule("R02.14", "the NEXUS tree statement hands the tree description over untouched: in NexusReader._parse_tree_statement no loop that advances the tokenizer precedes the hand-off to the Newick parser - what follows `TREE name =` need not start with `(` (a tree that is a single node is just a label), and a loop that looks for the parenthesis swallows that statement and glues the next tree onto its name")
+        ts = index.function("dendropy.dataio.nexusreader.NexusReader._parse_tree_statement")
+        hand = [c for c in calls_in(ts.node) if call_name(c) in ("_build_tree_from_newick_tree_string", "_parse_tree_statement")]
+        if not hand:
+            raise AnalysisError("R02.14: the hand-off to the Newick parser was not found in NexusReader._parse_tree_statement")
+        ADV = ("next_token", "next_token_ucase", "require_next_token", "require_next_token_ucase", "skip_to_semicolon")
+        bad = None
+        nl = 0
+        for lp in walk_no_nested(ts.node):
+            if isinstance(lp, (ast.While, ast.For)) and lp.lineno < hand[0].lineno:
+                nl += 1
+                adv = [c for c in ast.walk(lp) if isinstance(c, ast.Call) and call_name(c) in ADV]
+                # the loop that looks for the `=` (leaving on `=`) is the statement header, not the description
+                hdr = any(isinstance(x, ast.Constant) and x.value == "=" for x in ast.walk(lp.test if isinstance(lp, ast.While) else lp.iter))
+                if adv and not hdr:
+                    bad = lp
+        rep.check(bad is None, "R02.14", ts.qualname, "tokens skipped before the tree description is handed over", fn_where(ts, bad), "_parse_tree_statement: one token read between `=` and the Newick parser",
+                  "NexusReader._parse_tree_statement loops over tokens (`%s`) before handing over to the Newick parser: a TREE statement whose description does not begin with the token the loop waits for - `TREE 1 = 'beta gamma':3.5;`, a single-node tree - is swallowed, and the next statement's parentheses are attached to its name (a list of a single-node tree and an ordinary tree reads back as one tree)" % (norm_stmt(bad)[:60] if bad is not None else ""))
+        rep.ob("R02.14", fn_where(ts), "_parse_tree_statement: %d loops before the hand-off examined" % nl, True)
